@@ -242,7 +242,7 @@ pub fn sha1_cases(rng: &mut Rng, thorough: bool, out: &mut dyn Write) {
             writeln!(out, "sha1 {}", hex(&content(rng, n))).unwrap();
         }
     }
-    let (cnt, max) = if thorough { (400, 1usize << 20) } else { (40, 1usize << 18) };
+    let (cnt, max) = if thorough { (200, 1usize << 20) } else { (40, 1usize << 18) };
     for _ in 0..cnt {
         let n = match rng.below(4) {
             0 => rng.range(301, 5000) as usize,
@@ -268,7 +268,7 @@ pub fn generate(thorough: bool, seed: u64, out: &mut dyn Write) {
     // file sets through FileInfo::new
     writeln!(out, "new -").unwrap();
     writeln!(out, "newwrite -").unwrap();
-    let n = if thorough { 3000 } else { 150 };
+    let n = if thorough { 2000 } else { 150 };
     for i in 0..n {
         let nf = match rng.below(6) {
             0 => 1,
@@ -282,7 +282,7 @@ pub fn generate(thorough: bool, seed: u64, out: &mut dyn Write) {
     for op in ["write", "parse", "rt"] {
         writeln!(out, "{} -", op).unwrap();
     }
-    let n = if thorough { 60_000 } else { 1500 };
+    let n = if thorough { 30_000 } else { 1500 };
     for i in 0..n {
         let ne = match rng.below(8) {
             0 => 1,
@@ -294,7 +294,7 @@ pub fn generate(thorough: bool, seed: u64, out: &mut dyn Write) {
         writeln!(out, "{} {}", op, entries_field(&mut rng, ne)).unwrap();
     }
     // patch lists
-    let n = if thorough { 200_000 } else { 2400 };
+    let n = if thorough { 90_000 } else { 2400 };
     for i in 0..n {
         let game = rng.chance(1, 2);
         let np = match rng.below(8) {
